@@ -32,6 +32,7 @@ type Graph struct {
 	assumedFn   func(Fact) bool // set while a query with Assume runs
 	flagIx      map[*types.Var]int
 	nilIx       map[*types.Var]int // tracked locals of type error: the valuation holds the truth of `v != nil`
+	evalAt      *GNode             // the node whose condition / assignment is being evaluated (for Fact.At)
 
 	switchTag map[ast.Expr]ast.Expr // case expression -> tag expression (nil tag => tagless)
 }
@@ -58,6 +59,7 @@ type Fact struct {
 	X   ast.Expr // the atom
 	Y   ast.Expr // for switch-case facts: X == Y (X is the tag)
 	Pos bool     // atom holds (true) or its negation holds (false)
+	At  *GNode   // the node at which the atom is evaluated (set when an assumption is consulted; may be nil)
 }
 
 func noReturnCall(info *types.Info, call *ast.CallExpr) bool {
@@ -520,10 +522,10 @@ func (g *Graph) eval(e ast.Expr, v Val) int {
 		}
 	}
 	if g.assumedFn != nil {
-		if g.assumedFn(Fact{X: e, Pos: true}) {
+		if g.assumedFn(Fact{X: e, Pos: true, At: g.evalAt}) {
 			return tvT
 		}
-		if g.assumedFn(Fact{X: e, Pos: false}) {
+		if g.assumedFn(Fact{X: e, Pos: false, At: g.evalAt}) {
 			return tvF
 		}
 	}
@@ -1169,6 +1171,7 @@ func (g *Graph) Reach(q Query) map[*GNode]bool {
 	}
 	// expand: leave node n with valuation v (already includes n's transfer)
 	leave := func(n *GNode, v Val) {
+		g.evalAt = n
 		for _, e := range n.Succ {
 			if q.AvoidEdge != nil && q.AvoidEdge(e) {
 				continue
@@ -1213,6 +1216,7 @@ func (g *Graph) Reach(q Query) map[*GNode]bool {
 			continue
 		}
 		v := s.v
+		g.evalAt = s.n
 		if !q.NoFlags {
 			v = g.transfer(s.n, v)
 		}
@@ -1237,6 +1241,7 @@ func (g *Graph) ReachVals(q Query) map[*GNode]map[Val]bool {
 		}
 	}
 	leave := func(n *GNode, v Val) {
+		g.evalAt = n
 		for _, e := range n.Succ {
 			if q.AvoidEdge != nil && q.AvoidEdge(e) {
 				continue
@@ -1283,6 +1288,7 @@ func (g *Graph) ReachVals(q Query) map[*GNode]map[Val]bool {
 		if q.AvoidNode != nil && q.AvoidNode(s.n) {
 			continue
 		}
+		g.evalAt = s.n
 		leave(s.n, g.transfer(s.n, s.v))
 	}
 	return out
@@ -1479,9 +1485,9 @@ func (g *Graph) Infeasible(assumed func(Fact) bool) func(*GEdge) bool {
 		}
 		if e.Tag != nil {
 			if e.Taken {
-				return assumed(Fact{X: e.Tag, Y: e.Cond, Pos: false})
+				return assumed(Fact{X: e.Tag, Y: e.Cond, Pos: false, At: e.From})
 			}
-			return assumed(Fact{X: e.Tag, Y: e.Cond, Pos: true})
+			return assumed(Fact{X: e.Tag, Y: e.Cond, Pos: true, At: e.From})
 		}
 		// three-valued evaluation of the condition under the assumption: an atom is true when it is assumed, false
 		// when its negation is assumed, unknown otherwise; boolean locals that name a condition are expanded
@@ -1543,18 +1549,18 @@ func (g *Graph) Infeasible(assumed func(Fact) bool) func(*GEdge) bool {
 					}
 				}
 			}
-			if assumed(Fact{X: x, Pos: true}) {
+			if assumed(Fact{X: x, Pos: true, At: e.From}) {
 				return tvT
 			}
-			if assumed(Fact{X: x, Pos: false}) {
+			if assumed(Fact{X: x, Pos: false, At: e.From}) {
 				return tvF
 			}
 			if len(defs) > 0 {
 				if sx := substIdents(g.Info, x, defs); sx != x {
-					if assumed(Fact{X: sx, Pos: true}) {
+					if assumed(Fact{X: sx, Pos: true, At: e.From}) {
 						return tvT
 					}
-					if assumed(Fact{X: sx, Pos: false}) {
+					if assumed(Fact{X: sx, Pos: false, At: e.From}) {
 						return tvF
 					}
 				}
